@@ -39,7 +39,7 @@ LEVEL = "model_checking"
 PKG = "internal/raftstore"
 BND = 0x737461626c657374      # "stablest": the largest index whose key sorts before the "stablestore-" keys
 TOP = 2**64 - 2               # largest index / DeleteRange bound of the domain (max+1 overflows for 2^64-1)
-ALLKEYS = [1, 2, 3, 4, 5, 6, 7]
+ALLKEYS = [1, 2, 3, 4, 5, 6, 7, 8, 9, 10]
 
 # rank -> real uint64 for the model's index ranks.  "" = no integer exists at
 # that gap rank (the executor rounds a bound inwards, which selects the same
